@@ -65,6 +65,12 @@ def main(tier, replay=None):
         states += r["distinct"]
         gen += r["generated"]
         scen += objs
+    # tagged maps of haplotype-resolved assemblies (several output assemblies, Target mode, sequence absent from the map)
+    for tn, td in R.TEXELS[tier][:2]:
+        objs, r = R.export(run, f"pv-tagged-{tn}-{td}", tn, td, "tagged", 3, 0, cap=sz["remap_cap"], rng=rng, style="hap")
+        states += r["distinct"]
+        gen += r["generated"]
+        scen += objs
     for s in scen:
         s["tid"] = 0
         s["cls"] = "valid"
@@ -93,7 +99,7 @@ def main(tier, replay=None):
         "states": states, "transitions": gen, "traces_validated_against_impl": jr["judged"], "exhaustive": False,
         "evaluations": len(traces), "distinct_nontrivial": sum(1 for t in traces if len(t["lines"]) > 1),
         "rule": "every AGP text written while (a) formatting the C05 universe, (b) remapping valid PretextView scenarios (cut, reversed, fused scaffolds; all "
-                "output assemblies), (c) indexing FASTA files of the bounded universe with a 2-residue buffer (.agp cache read back from disk), (d) the pretext-to-asm CLI writing "
+                "output assemblies) and tagged maps of two-haplotype assemblies, (c) indexing FASTA files of the bounded universe with a 2-residue buffer (.agp cache read back from disk), (d) the pretext-to-asm CLI writing "
                 "FASTA + companion AGP with stream buffers 7 / 64 / 250000 (object length = length of the record written); TLC evaluates AgpTpf!AgpValid and the "
                 "object-length clause on each; non-trivial = more than one line",
         "agp_texts_by_source": src, "agp_lines": sum(len(t["lines"]) for t in traces),
